@@ -17,6 +17,7 @@ import Nutree.Properties.C01Move
 import Nutree.Properties.C01Data
 import Nutree.Properties.C07Copy
 import Nutree.Properties.C08
+import Nutree.Properties.C13
 import Nutree.Lemmas.MainWorld
 import Nutree.Lemmas.MainFilter
 import Nutree.Lemmas.MainShortcuts
@@ -468,6 +469,32 @@ theorem push_refused {w : World} {r : Tree × NodeId × Option Err} {e : Err} (h
   · rename_i hn
     rw [hn] at he
     cases he
+
+/-- C13, stale references: a call that addresses a node which is not (or no longer) in tree `i` — as the node to move,
+to remove or to re-key, or as the parent to add below — is refused by the step function, and the whole state stays as it
+was (the refusal is `stale_*_refused` of `Properties/C13.lean`, unchanged-ness is `refused_unchanged`). -/
+theorem stale_reference_unchanged (w : World) (i : Nat) (t : Tree) (n : NodeId) (hi : w.trees[i]? = some t)
+    (hn : findT n t.root = none) :
+    (∀ to b, (w.step (.move i n to b)).2 ≠ none ∧ (w.step (.move i n to b)).1 = w) ∧
+    (∀ keep, (w.step (.remove i n keep false)).2 ≠ none ∧ (w.step (.remove i n keep false)).1 = w) ∧
+    (∀ a d wc rn, (w.step (.setData i n a d wc rn)).2 ≠ none ∧ (w.step (.setData i n a d wc rn)).1 = w) ∧
+    (∀ a b d k, (w.step (.add i n a b d k)).2 ≠ none ∧ (w.step (.add i n a b d k)).1 = w) := by
+  have key : ∀ op : Op, op.atomic = true → (w.step op).2 ≠ none → (w.step op).2 ≠ none ∧ (w.step op).1 = w := by
+    intro op hop hne
+    refine ⟨hne, ?_⟩
+    cases he : (w.step op).2 with
+    | none => exact absurd he hne
+    | some e => exact refused_unchanged w op e he hop
+  refine ⟨fun to b => key _ rfl ?_, fun keep => key _ rfl ?_, fun a d wc rn => key _ rfl ?_, fun a b d k => key _ rfl ?_⟩
+  · simp only [World.step, hi]
+    obtain ⟨e, he⟩ := C13.stale_move_refused t n to b hn
+    rw [he]; simp
+  · simp only [World.step, hi, C13.stale_remove_refused t n keep false hn]; simp
+  · simp only [World.step, hi]
+    split
+    · simp
+    · simp [hn]
+  · simp only [World.step, hi, C13.stale_parent_refused t w.next n a b d k hn]; simp
 
 /-- …and for the multi-node copies (`add_child(node)`, `add_child(tree)`, `copy_to`, `Tree.copy()`,
 `Node.copy()`) under a well-formed state: they refuse up front, so a refusal leaves the state
